@@ -588,6 +588,36 @@ def incremental(ctx: Ctx):
                 ok, why = True, f"reward = -max(schedule + job_duration^T) over real jobs: {pv.show(2)}"
     ctx.ob("C03.d", "FFSPEnv._step:reward", ok, sl.where, why, construct="FFSPEnv._step:reward")
     # ---- FJSP finish_times written by _make_step = time + proc_time (cross-checked in C07.b)
+    # ---- FJSP / JSSP step-wise reward: minus the increase of the makespan lower bound, so that the rewards of an episode sum to
+    #      -(final lower bound - initial lower bound)
+    for cname in ("FJSPEnv", "JSSPEnv"):
+        env = EnvA(ctx.repo, T.ALL_ENVS[cname], cname)
+        sl = env.slot("_step")
+        ctx.fn(sl.fi)
+        rw, lbs_new = sl.cell("reward"), sl.cell("lbs")
+        ok, why = False, "reward is not a function of the lower bounds under stepwise_reward"
+        if isinstance(rw, vg.S) and rw.op in ("phi", "ifexp") and rw.args[0].op == "selfattr" and rw.args[0].args[0] == "stepwise_reward":
+            val = rw.args[1]
+            p = nf.poly(val)
+            mon = p.monos()
+            if len(mon) == 2 and sorted(c for c, _ in mon) == [-1, 1]:
+                neg = [fs[0][0] for c, fs in mon if c == -1 and len(fs) == 1]
+                pos = [fs[0][0] for c, fs in mon if c == 1 and len(fs) == 1]
+                if neg and pos:
+                    def max_of(a):
+                        a = nf.strip(a)
+                        if a.op == "attr" and a.args[1] == "values":
+                            a = nf.strip(a.args[0])
+                        if a.op == "sub" and vg.is_const(a.args[1], 0):
+                            a = nf.strip(a.args[0])
+                        return a.args[0] if a.op == "meth" and a.args[1] == "max" and nf.axis_is(a, 1) else None
+                    new_, old_ = max_of(neg[0]), max_of(pos[0])
+                    old_ok = old_ is not None and nf.strip(old_).op == "cell0" and nf.strip(old_).args[1] == "lbs"
+                    lb_alt = lbs_new.args[1] if isinstance(lbs_new, vg.S) and lbs_new.op in ("phi", "ifexp") else lbs_new
+                    new_ok = new_ is not None and nf.norm(new_) is nf.norm(lb_alt)
+                    ok = old_ok and new_ok
+                    why = f"reward = -(max lbs' - max lbs): the subtracted bound is the previous state's td['lbs']: {old_ok}; the added one is the bound stored as the new td['lbs']: {new_ok}"
+        ctx.ob("C03.d", f"{cname}._step:stepwise-reward", ok, sl.where, why, construct=f"{cname}._step:stepwise-reward")
 
 
 def _is_agent_cmp(a):
